@@ -203,6 +203,79 @@ async def subscription_case(ctx, prefixes: tuple[str, str]) -> None:
         await transport.disconnect()
 
 
+def partial_subscribe_case(ctx, failing: list[int], level: str) -> None:
+    """The broker refuses SOME of the subscriptions connect() asks for (an ACL on part of the topic tree): either connect()
+    fails with a transport error or every command's topics are subscribed - never 'connected' and deaf for a command."""
+    from paho.mqtt.client import topic_matches_sub
+
+    from aiomysensors.exceptions import TransportError
+
+    case = {"kind": "partial-subscribe", "failing": list(failing), "level": level}
+    out: dict = {}
+
+    async def scenario() -> None:
+        if level == "hook":
+            transport = hooked_transport("in", "out")
+            calls = {"n": 0}
+            good = transport._subscribe  # noqa: SLF001
+
+            async def flaky(topic: str, qos: int) -> None:
+                index = calls["n"]
+                calls["n"] += 1
+                await asyncio.sleep(0)
+                if index in failing:
+                    raise TransportError("subscription refused")
+                await good(topic, qos)
+
+            transport._subscribe = flaky  # noqa: SLF001  the documented hook of other client implementations
+        else:
+            from aiomysensors.transport.mqtt import MQTTClient
+
+            FakeClient.subscribe_fail_calls = set(failing)
+            FakeClient.subscribe_calls = 0
+            transport = MQTTClient("broker.invalid", 1883, in_prefix="in", out_prefix="out")
+        try:
+            await transport.connect()
+            out["connect"] = "returned"
+        except Exception as exc:  # noqa: BLE001
+            out["connect"] = exc
+        out["subscribed"] = list(transport.subscribed) if level == "hook" else \
+            (list(FakeClient.instances[-1].subscriptions) if FakeClient.instances else [])
+        try:
+            await transport.disconnect()
+        except Exception as exc:  # noqa: BLE001
+            out["disconnect"] = exc
+
+    with install() as seam:
+        if level != "hook" and not seam:
+            ctx.skip("fake-client", "no aiomqtt client seam in aiomysensors.transport.mqtt")
+            return
+        result, _loop = run_virtual(scenario)
+    ctx.case(("partial-subscribe", tuple(failing), level), nontrivial=True, sample=case)
+    ctx.clause("partial-subscribe")
+    if isinstance(result, BaseException):
+        from ..harness import scenario_exception
+
+        scenario_exception(ctx, result, case, "partial-subscribe")
+        return
+    outcome = out.get("connect")
+    if isinstance(outcome, BaseException):
+        if not isinstance(outcome, TransportError):
+            ctx.violation("connect-raises", f"refused subscriptions {failing}: connect raised {type(outcome).__name__}: "
+                                            f"{outcome!s:.80}", case)
+        else:
+            ctx.obs("partial-subscribe:connect-refused-loudly")
+        return
+    ctx.obs("partial-subscribe:connect-returned")
+    for cmd in range(5):
+        topic = f"in/3/255/{cmd}/0/1"
+        if not any(topic_matches_sub(sub, topic) for sub, _qos in out["subscribed"]):
+            ctx.violation("subscription-misses-topic",
+                          f"the broker refused subscription call(s) {failing}; connect() returned normally with only "
+                          f"{out['subscribed']} in force: nothing matches {topic!r} (connected but deaf for command {cmd})", case)
+            return
+
+
 async def backlog_case(ctx, case: dict) -> None:
     """Hook level: large unread backlogs, reads pending across disconnect/connect, backlog present at reconnect."""
     from aiomysensors.exceptions import TransportFailedError
@@ -366,6 +439,80 @@ async def fifo_case(ctx, script: list) -> None:
     ctx.clause("fifo-exactly-once")
     if got != expected:
         ctx.violation("delivery-order-or-count", f"script {script}: reads {got!r:.160} expected {expected!r:.160}", case)
+
+
+def concurrent_reads_case(ctx, readers: int, messages: int, cancel: list[int]) -> None:
+    """Several tasks wait in read() on ONE transport at once (a listener plus a watchdog, two consumers): every arriving
+    message or error goes to exactly one of them, each exactly once, and what is left is read afterwards in order."""
+    from aiomysensors.exceptions import TransportFailedError
+
+    case = {"kind": "concurrent-reads", "readers": readers, "messages": messages, "cancel": list(cancel)}
+    out: dict = {}
+
+    async def scenario() -> None:
+        transport = hooked_transport("in", "out")
+
+        async def reader() -> object:
+            try:
+                return (await transport.read()).rstrip("\n")
+            except TransportFailedError as exc:
+                return f"error:{exc}"
+
+        tasks = [asyncio.ensure_future(reader()) for _ in range(readers)]
+        for _ in range(3):
+            await asyncio.sleep(0)
+        for index in cancel:
+            tasks[index].cancel()
+        expected = []
+        for uid in range(1, messages + 1):
+            if uid % 4 == 0:
+                transport._receive_error(TransportFailedError(f"e{uid}"))  # noqa: SLF001
+                expected.append(f"error:e{uid}")
+            else:
+                transport._receive(f"in/1/0/1/0/{uid}", f"u{uid}")  # noqa: SLF001
+                expected.append(f"1;0;1;0;{uid};u{uid}")
+            if uid % 3 == 0:
+                await asyncio.sleep(0)
+        got = []
+        live = [t for i, t in enumerate(tasks) if i not in cancel]
+        wanted = min(len(live), messages)
+        for _ in range(2000):
+            if sum(1 for t in live if t.done()) >= wanted:
+                break
+            await asyncio.sleep(0)
+        for task in live:
+            if task.done() and not task.cancelled():
+                got.append(task.result())
+        out["by_waiters"] = list(got)
+        rest = []
+        while len(got) + len(rest) < messages:
+            try:
+                rest.append(await asyncio.wait_for(reader(), 5))
+            except asyncio.TimeoutError:
+                break
+        out["rest"] = rest
+        out["expected"] = expected
+        for task in tasks:
+            task.cancel()
+
+    result, _loop = run_virtual(scenario)
+    ctx.case(("concurrent-reads", readers, messages, tuple(cancel)), nontrivial=True, sample=case)
+    ctx.clause("concurrent-reads")
+    if isinstance(result, LogicalDeadlock):
+        ctx.violation("mqtt-deaf", f"{case}: logical deadlock - {messages} items arrived, waiting reads never completed", case)
+        return
+    if isinstance(result, BaseException):
+        from ..harness import scenario_exception
+
+        scenario_exception(ctx, result, case, "concurrent-reads")
+        return
+    got_all = out["by_waiters"] + out["rest"]
+    if sorted(got_all) != sorted(out["expected"]):
+        ctx.violation("delivery-order-or-count", f"{readers} tasks waiting in read(), {messages} items arrived: the waiters got "
+                                                 f"{out['by_waiters']!r:.200}, later reads {out['rest']!r:.120}; arrived "
+                                                 f"{out['expected']!r:.200}", case)
+    elif out["rest"] != [e for e in out["expected"] if e in out["rest"]]:
+        ctx.violation("delivery-order-or-count", f"items left for later reads came out of order: {out['rest']!r:.200}", case)
 
 
 def client_script_case(ctx, script: list, prefixes: tuple[str, str] = ("in", "out")) -> None:
@@ -1147,6 +1294,10 @@ def run_case(ctx, case: dict) -> None:
         arun(subscription_case(ctx, tuple(case["prefixes"])))
     elif kind == "fifo":
         arun(fifo_case(ctx, case["script"]))
+    elif kind == "concurrent-reads":
+        concurrent_reads_case(ctx, case["readers"], case["messages"], case["cancel"])
+    elif kind == "partial-subscribe":
+        partial_subscribe_case(ctx, case["failing"], case["level"])
     elif kind == "multi-loop-client":
         multi_loop_client_case(ctx, case["first_session"])
     elif kind == "client-script":
@@ -1263,6 +1414,19 @@ def run(ctx) -> None:
         for i, delay in enumerate((1.0, 5.0, 9.0, 10.0, 11.0, 30.0, 60.0, 301.0)):
             if ctx.mine(i):
                 hung_broker_disconnect_case(ctx, delay)
+        index = 0
+        for readers, messages, cancel in ((2, 2, []), (2, 3, []), (3, 2, []), (2, 1, []), (3, 5, [0]), (4, 4, [1, 2]), (2, 6, [1]),
+                                          (8, 20, [3])):
+            index += 1
+            if ctx.mine(index):
+                concurrent_reads_case(ctx, readers, messages, cancel)
+        index = 0
+        for level in ("hook", "client"):
+            for r in (1, 2, 4, 5):
+                for failing in itertools.combinations(range(5), r):
+                    index += 1
+                    if ctx.mine(index):
+                        partial_subscribe_case(ctx, list(failing), level)
         for i, first_session in enumerate(("clean", "publish-only")):
             if ctx.mine(i + 4):
                 multi_loop_client_case(ctx, first_session)
